@@ -55,6 +55,7 @@ class MonitoredState(ParserState):
 
     def __init__(self, text, start_pos=0, parser=None):
         super().__init__(text, start_pos, parser)
+        LAST["state"] = self
         self._pv_steps = 0
         self._pv_shadow = []
         self._pv_start = start_pos
@@ -138,3 +139,9 @@ def attach(module) -> None:
 
 def set_budget(n: int) -> None:
     CFG["budget"] = n
+
+
+def last_steps() -> int:
+    """Logical steps (checkpoints + rule entries) of the most recent parse in this thread of control."""
+    st = LAST.get("state")
+    return st._pv_steps if st is not None else 0
